@@ -54,16 +54,30 @@ def change_units(F, h):
                                     for b, t in F.fns[c].calls())]
 
 
+def vfs_view(F, name):
+    """Vfs::<name> with its private helpers in glas::vfs inlined (all but LineMap's methods, which are analysed on their
+    own): the store / splice / record steps may live in a helper such as `replace_content` or `splice_text`"""
+    from lib import inline as IL
+    return IL.inlined(F, F.fn(VFS + "::" + name), want=lambda p: p.startswith("glas::vfs::") and "LineMap" not in p, depth=2)
+
+
 def run(F, res, tier):
     # ---- D1
     ws = EF.writers(F, VFS, "files", "glas::")
     who = sorted({f.path for f, e in ws})
     allowed = {VFS + "::set_path_content", VFS + "::change_file_content", VFS + "::remove_uri", VFS + "::new"}
-    res.ob("D1", "files-writers", "Vfs.files is modified only by set_path_content, change_file_content and remove_uri",
+    # private helpers that only the allowed functions call are part of them
+    for _ in range(3):
+        for w in who:
+            if w not in allowed and w.startswith("glas::vfs::"):
+                callers = {f.path for f, b, t in F.callers_of(lambda c, w=w: c == w)}
+                if callers and callers <= allowed:
+                    allowed.add(w)
+    res.ob("D1", "files-writers", "Vfs.files is modified only by set_path_content, change_file_content and remove_uri (and helpers only they call)",
            set(who) <= allowed, where="crates/glas/src/vfs.rs", how=str(who))
     n_pairs = 0
     for name in ("set_path_content", "change_file_content"):
-        f = F.fn(VFS + "::" + name)
+        f = vfs_view(F, name)
         d = FL.Defs(f)
         stores = []
         for b, i, s in f.stmts():
@@ -112,7 +126,7 @@ def run(F, res, tier):
     res.ob("D2", "from_range/fresh-line-map", "convert::from_range fetches the file's current line map itself", len(lm) == 1, where=fr.loc(),
            how="line_map_for_file calls: %d" % len(lm))
     # ---- D3
-    cf = F.fn(VFS + "::change_file_content")
+    cf = vfs_view(F, "change_file_content")
     dcf = FL.Defs(cf)
     slices = [b for b, kind, detail, ln, key, exp in PN.sites_in(cf) if detail == "Index::index[str]"]
     okl = okb = len(slices) >= 2
@@ -126,7 +140,7 @@ def run(F, res, tier):
     res.ob("D3", "splice/char-boundary-guard", "both slicings are dominated by is_char_boundary checks", okb, where=cf.loc(), how="%d slicing sites" % len(slices))
     # ---- D4
     for name in ("set_path_content", "change_file_content"):
-        f = F.fn(VFS + "::" + name)
+        f = vfs_view(F, name)
         d = FL.Defs(f)
         recs = [(b, t) for b, t in f.calls() if callee(t) == "ide::base::Change::change_file"]
         rets = f.return_blocks()
